@@ -26,7 +26,13 @@ int cmd_do(string arg);
 
 #ifdef USER_PROCESS_INPUT
 mixed process_input(mixed s) {
-  if (bufferp(s)) { rec("PIB " + me() + " " + sizeof(s)); return 0; }
+  if (bufferp(s)) {
+    string hx; int i;
+    hx = "";
+    for (i = 0; i < sizeof(s); i++) hx += sprintf("%02x", s[i]);
+    rec("PIB " + me() + " " + hx);
+    return 0;
+  }
   rec("PI " + me() + " " + s);
 #ifdef PI_SCRIPT
   run(PI_SCRIPT);
@@ -49,6 +55,10 @@ int cmd_any(string arg) {
   rec("CMD " + me() + " " + query_verb() + (arg ? " " + arg : ""));
   return 1;
 }
+
+void set_terminal_type(string t) { rec("TT " + me() + " " + t); }
+void set_window_size(int w, int h) { rec("WS " + me() + " " + w + " " + h); }
+void telnet_suboption(string t) { rec("SUBOPT " + me() + " " + strlen(t)); }
 
 void net_dead() {
   rec("NETDEAD " + me());
